@@ -144,6 +144,9 @@ type Fault struct {
 	Site    string
 	K       int
 	AtVisit int `json:",omitempty"`
+	// cancel faults: the call issued by op OpIdx of thread Thread gets its context cancelled
+	Thread int `json:",omitempty"`
+	OpIdx  int `json:",omitempty"`
 	Dir     string
 	// fired is set once the fault has been injected
 	fired bool
